@@ -6,6 +6,7 @@ CT = {"tspec": "ChmuxTrace.tla", "tcfg": "ChmuxTrace.cfg"}
 PT = {"tspec": "ChmuxPeerTrace.tla", "tcfg": "ChmuxPeerTrace.cfg"}
 RT = {"tspec": "RobsTrace.tla", "tcfg": "RobsTrace.cfg"}
 TT = {"tspec": "TypedTrace.tla", "tcfg": "TypedTrace.cfg"}
+XT = {"tspec": "RtcTrace.tla", "tcfg": "RtcTrace.cfg"}
 SIM = ["-simulate", "num={N}", "-depth", "8", "-seed", "{SEED}"]
 
 
@@ -168,6 +169,7 @@ CHECKS = {
         "legs": [
             model("ChmuxPeer_MC.cfg", spec="ChmuxPeerMCc.tla", min_states=1000),
             model("ChmuxPeer_Cov.cfg", spec="ChmuxPeerMCc.tla", expect_violation="NeverFullBuffer"),
+            dict(kind="custom", fn=legs.wire_vectors, name="wire_malformed", only_t="bytes"),
             dict(PT, kind="trace", name="peer_hostile", workload="peer", n=(400, 6000), opts={"hostile": 1},
                  require={r'"res":"protocol"': 100, r'"res":"reset"': 3, r'"running":true': 20}, nontrivial=[r'"ev":"run_end"', r'"b":\[5,']),
             dict(PT, kind="custom", fn=legs.gen_replay, name="peer_replay", gen_spec="ChmuxPeerGen.tla", gen_cfg="ChmuxPeerGen.cfg",
@@ -183,7 +185,7 @@ CHECKS = {
         "legs": [
             dict(kind="custom", fn=legs.wire_vectors, name="wire_vectors"),
             dict(PT, kind="trace", name="peer_versions", workload="peer", n=(200, 3000), opts={"hostile": 0},
-                 require={r'"version":2': 20, r'"b":\[4,': 50}, nontrivial=[r'"b":\[4,']),
+                 require={r'"version":2': 20, r'"b":\[4,': 50, r'"ev":"a_send_ports"': 30}, nontrivial=[r'"b":\[4,']),
             data_leg("data_frames", (60, 1500), {"cancel": 0, "ports": 1}, require={r'"b":\[8,': 20}, nontrivial=[r'"b":\[8,']),
         ],
     },
@@ -203,6 +205,51 @@ CHECKS = {
                  require={r'"ep":2': 200, r'"ev":"rw_cancel"': 5}, nontrivial=[r'"ev":"rw_commit_done"', r'"ep":2']),
             dict(kind="trace", name="rw_cut", workload="rwlock", n=(60, 1000), opts={"remote": 1, "cut": 1}, tspec="RwLockTrace.tla", tcfg="RwLockTrace.cfg",
                  require={r'"ev":"fault"': 50}, nontrivial=[r'"ev":"fault"']),
+        ],
+    },
+    "C12": {
+        "rule": "seeded call histories on a counter object whose mutable methods are a read-modify-write across a suspension point: 2-4 clients "
+                "(clones; local and received over a real connection), 2-4 calls each out of get / add / add_nc (#[no_cancel]) / hang / hang_ref, a fifth of "
+                "the calls abandoned after 1-13 polls, every generated server flavour (by-value, RefMut, SharedMut with and without spawn), request buffer "
+                "1-4, optional connection cut, plus a trait with a by-value method; every step of the callee body is logged from inside the target; "
+                "distinct = distinct event sequences; non-trivial = a mutable call ran while other calls were outstanding",
+        "assumptions": ["x_start / x_end are logged by the target object itself, i.e. under whatever lock the server holds while executing"],
+        "legs": [
+            model("Rtc_MC_seq.cfg", spec="RtcMC.tla", min_states=10000),
+            model("Rtc_MC_shared.cfg", spec="RtcMC.tla", min_states=10000),
+            model("Rtc_MC_sharedns.cfg", spec="RtcMC.tla", min_states=10000),
+            model("Rtc_MC_faulty.cfg", spec="RtcMC.tla", min_states=30000),
+            model("Rtc_DevNolock.cfg", spec="RtcMC.tla", expect_violation="C12_MutAtomic"),
+            model("Rtc_DevRequeue.cfg", spec="RtcMC.tla", expect_violation="C12_AtMostOnce"),
+            dict(XT, kind="trace", name="rtc_local", workload="rtc", n=(200, 3000), opts={"remote": 0}, require={r'"m":"add"': 200, r'"ev":"c_cancel"': 100},
+                 nontrivial=[r'"ev":"x_end","m":"add', r'"ev":"c_ret"']),
+            dict(XT, kind="trace", name="rtc_remote", workload="rtc", n=(250, 4000), opts={"remote": 1}, require={r'"ep":2,"ev":"c_call"': 300, r'"ev":"x_drop"': 50},
+                 nontrivial=[r'"ev":"x_end","m":"add', r'"ep":2,"ev":"c_call"']),
+            dict(XT, kind="trace", name="rtc_cut", workload="rtc", n=(80, 1500), opts={"remote": 1, "cut": 1}, require={r'"ev":"fault"': 60}, nontrivial=[r'"ev":"fault"']),
+            dict(XT, kind="trace", name="rtc_once", workload="rtc_once", n=(120, 2000), opts={"remote": 1}, require={r'"m":"take"': 100}, nontrivial=[r'"ev":"x_end","m":"take"']),
+            dict(XT, kind="trace", name="rtc_once_local", workload="rtc_once", n=(80, 1000), opts={"remote": 0}, require={r'"m":"take"': 60}, nontrivial=[r'"ev":"x_end","m":"take"']),
+        ],
+    },
+    "C19": {
+        "rule": "the C12 call histories with hanging methods that only end when their caller abandons them (the server must go on serving), "
+                "non-cancellable methods abandoned by their caller (must run to completion), requests whose argument cannot be decoded, calls of a method "
+                "only a newer version of the trait knows, replies over the caller's size limit, connection cut; at the end all clients are dropped and the "
+                "server must end; distinct = distinct event sequences; non-trivial = a hanging or failing call was followed by a successful one",
+        "assumptions": ["hanging methods are always abandoned by their caller (after 2-29 polls)"],
+        "legs": [
+            model("Rtc_MC_seq.cfg", spec="RtcMC.tla", min_states=10000),
+            model("Rtc_MC_shared.cfg", spec="RtcMC.tla", min_states=10000),
+            model("Rtc_MC_hangref.cfg", spec="RtcMC.tla", min_states=10000),
+            model("Rtc_DevNorace.cfg", spec="RtcMC.tla", expect_violation="C19_Served"),
+            dict(XT, kind="trace", name="rtc_local", workload="rtc", n=(200, 3000), opts={"remote": 0}, require={r'"m":"hang': 150, r'"m":"add_nc","polls":\d': 10},
+                 nontrivial=[r'"m":"hang', r'"r":"ok"']),
+            dict(XT, kind="trace", name="rtc_remote", workload="rtc", n=(250, 4000), opts={"remote": 1}, require={r'"ep":2,"ev":"c_call","k":0,"m":"hang': 40},
+                 nontrivial=[r'"m":"hang', r'"r":"ok"']),
+            dict(XT, kind="trace", name="rtc_undecodable", workload="rtc", n=(200, 3000), opts={"remote": 1, "undecodable": 1},
+                 require={r'"m":"extra"': 40, r'"ep":2,"ev":"c_call","k":1,"m":"picky"': 10}, nontrivial=[r'"m":"(extra|picky)"']),
+            dict(XT, kind="trace", name="rtc_cut", workload="rtc", n=(80, 1500), opts={"remote": 1, "cut": 1}, require={r'"ev":"fault"': 60}, nontrivial=[r'"ev":"fault"']),
+            dict(XT, kind="trace", name="rtc_oversize", workload="rtc", n=(60, 600), opts={"remote": 1, "oversize": 1}, require={r'"m":"big"': 60},
+                 nontrivial=[r'"m":"big"'], max_rounds=80),
         ],
     },
     "C13": {
